@@ -29,7 +29,7 @@ def plan(tier: str) -> dict:
     for i in range(len(c04mod._h2_malformed(H2Peer()))):
         cases.append({"case": {"kind": "malformed", "h2": i}})
     return {
-        "runs": 20000 if tier == "quick" else 400000,
+        "runs": 20000 if tier == "quick" else 700000,
         "budget": 150 if tier == "quick" else 900,
         "cases": cases,
         "chunk": 20,
